@@ -83,7 +83,7 @@ static char suite_path[PATH_MAX];
 
 static void print_path_separator_if_needed(int *more_segments) {
     if (*more_segments > 0) {
-        strcat(suite_path, "/");
+        strncat(suite_path, "/", sizeof(suite_path)-strlen(suite_path)-1);
         (*more_segments)--;
     }
 }
@@ -97,13 +97,13 @@ static void print_path_segment_walker(const char *segment, void *void_memo) {
 
 static void strcat_path_segment(const char *segment, void *more_segments) {
     (void)more_segments;
-    if (suite_path[0] != '\0') strcat(suite_path, "-");
+    if (suite_path[0] != '\0') strncat(suite_path, "-", sizeof(suite_path)-strlen(suite_path)-1);
     strncat(suite_path, segment, sizeof(suite_path)-strlen(suite_path)-1);
 }
 
 static void add_suite_name(const char *suite_name) {
     if (suite_path[0] != '\0')
-        strcat(suite_path, "-");
+        strncat(suite_path, "-", sizeof(suite_path)-strlen(suite_path)-1);
     strncat(suite_path, suite_name, sizeof(suite_path)-strlen(suite_path)-1);
 }
 
